@@ -637,15 +637,12 @@ func (s *Server) handleRequest(req *dhcpv4.DHCPv4) (*dhcpv4.DHCPv4, error) {
 		// Allocate or verify the requested IP
 		// When using Nexus (HTTPAllocator), accept the Nexus-allocated IP
 		// even if it's outside the local pool range
-		if s.httpAllocator != nil && s.httpAllocatorPool != "" {
-			s.logger.Debug("Accepting Nexus-allocated IP in REQUEST",
-				zap.String("mac", mac.String()),
-				zap.String("ip", requestedIP.String()),
-			)
-		} else if !pool.Contains(requestedIP) {
+		centrallyAllocated := s.httpAllocator != nil && s.httpAllocatorPool != ""
+		if !centrallyAllocated && !pool.Contains(requestedIP) {
 			atomic.AddUint64(&s.naksTotal, 1)
 			return s.buildNAK(req, "IP not in pool")
-		} else if !s.addressOfferedTo(mac, requestedIP, pool) {
+		}
+		if !s.addressOfferedTo(mac, requestedIP, pool) {
 			// Being inside the pool is not enough: the address must be the one held for this
 			// client (the one offered to it), not one leased or offered to someone else
 			atomic.AddUint64(&s.naksTotal, 1)
@@ -865,10 +862,18 @@ func (s *Server) handleRequest(req *dhcpv4.DHCPv4) (*dhcpv4.DHCPv4, error) {
 	return resp, nil
 }
 
-// addressOfferedTo reports whether ip is the address held for the client mac: the one its Nexus
-// subscriber record carries (centrally allocated), or otherwise the one the local pool has
+// addressOfferedTo reports whether ip is the address held for the client mac: the one Nexus holds
+// for it (HTTP allocator lookup, or its subscriber record), or otherwise the one the local pool has
 // allocated to that MAC (the DISCOVER/OFFER allocation; allocated now if the client skipped DISCOVER).
 func (s *Server) addressOfferedTo(mac net.HardwareAddr, ip net.IP, pool *Pool) bool {
+	if s.httpAllocator != nil && s.httpAllocatorPool != "" {
+		// Central (Nexus HTTP) allocation: the address may lie outside the local pool, but it
+		// must be the one Nexus holds for this client
+		if allocated, _, _, err := s.httpAllocator.LookupIPv4(context.Background(), mac.String(), s.httpAllocatorPool); err == nil {
+			return allocated.Equal(ip)
+		}
+		// no central allocation (walled garden) or lookup failure: the local pool decides
+	}
 	if s.nexusClient != nil {
 		if sub, ok := s.nexusClient.GetSubscriberByMAC(mac.String()); ok && sub.IPv4Addr != "" {
 			return net.ParseIP(sub.IPv4Addr).Equal(ip)
